@@ -204,7 +204,7 @@ func analyse(r *report.R, scratch string, items []item, res []Res) {
 		if !res[i].Accepted {
 			fm.rejected++
 
-			if len(rejects[it.family]) < 12 {
+			if len(rejects[it.family]) < 12 || os.Getenv("VERIF_C05_CENSUS") == "all" && (strings.Contains(it.name, "@body/program") || it.family == "decl" || strings.Contains(it.name, "@call-arg") || strings.Contains(it.name, "@define")) {
 				rejects[it.family] = append(rejects[it.family], it.name+": "+res[i].Reject)
 			}
 
